@@ -441,7 +441,16 @@ func c08Step(refs []c08Ref) {
 	}
 }
 
-func VerifC08_StepMem() { c08Step(c08RefsMem()) }
+// the suite parameter refs (> 0) takes the first refs references: the eight without a
+// memory window come first (JUMP JUMPI SLOAD SSTORE BALANCE EXTCODESIZE EXP STOP), then
+// SHA3 CALLDATACOPY CODECOPY RETURN REVERT LOG0-4
+func VerifC08_StepMem() {
+	r := c08RefsMem()
+	if n := vs.Param("refs"); n > 0 && n < len(r) {
+		r = r[:n]
+	}
+	c08Step(r)
+}
 
 func c08IsWordOp(op OpCode) bool {
 	switch op {
